@@ -710,6 +710,7 @@ FAMILIES = (
     "twin",
     "random",
     "alias",
+    "merge_filter",
 )
 
 
@@ -1246,6 +1247,40 @@ class Generator:
             return None
         self._kn(op, ["broadcast", "shuffle_method", "npartitions_hint"])
         return self.try_add(op, "open", labels, self.next_id, None)
+
+    def _atom(self, c, kind):
+        rng = self.rng
+        if kind in ("int", "float", "dt"):
+            return [rng.choice(["gt", "ge", "lt", "le", "eq"]), c, self.draw_lit(kind)]
+        if kind in ("str", "cat"):
+            return ["eq", c, self.draw_lit(kind)]
+        if kind == "bool":
+            return ["eq", c, self.draw_lit("bool")]
+        return ["notna", c]
+
+    def g_merge_filter(self):
+        """A conjunction / disjunction over columns of *both* inputs directly on top of a join: the filter push-down
+        rules for joins (and their mutual undoing) live here."""
+        merges = [op for op in self.recipe["ops"] if op["op"] == "merge" and op["id"] in self.members]
+        if not merges:
+            return self.g_merge()
+        op = self.rng.choice(merges)
+        m = self.members[op["id"]]
+        l, r = (self.members.get(s_) for s_ in op["src"])
+        if l is None or r is None:
+            return None
+        keys = set(op.get("on") or [])
+        lcols = [c for c in m.cols if (c in l.cols and c not in r.cols and c not in keys) or (isinstance(c, str) and c.endswith("_x"))]
+        rcols = [c for c in m.cols if (c in r.cols and c not in l.cols and c not in keys)]
+        if not lcols or not rcols:
+            return None
+        a = self._atom(*(lambda c: (c, m.cols[c]))(self.rng.choice(lcols)))
+        b = self._atom(*(lambda c: (c, m.cols[c]))(self.rng.choice(rcols)))
+        first, second = (a, b) if self.rng.random() < 0.5 else (b, a)
+        pred = [self.rng.choice(["and", "and", "or"]), first, second]
+        if self.rng.random() < 0.3:
+            pred = ["and", pred, self._atom(*(lambda c: (c, m.cols[c]))(self.rng.choice(lcols + rcols)))]
+        return self.try_add({"op": "filter", "src": m.id, "pred": pred}, m.order, m.labels, m.root, m.index_kind)
 
     def g_concat(self):
         fr = self.frames()
